@@ -12,7 +12,6 @@
 package c02
 
 import (
-	"context"
 	"encoding/json"
 	"fmt"
 	"math/rand"
@@ -23,7 +22,6 @@ import (
 	"time"
 
 	bleve "github.com/blevesearch/bleve/v2"
-	"github.com/blevesearch/bleve/v2/search"
 	"github.com/blevesearch/bleve/v2/search/query"
 	"github.com/blevesearch/bleve/v2/search/searcher"
 
@@ -36,11 +34,10 @@ func init() {
 	core.Register(&core.Check{Prop: "C02", Level: "model_checking", Run: run, Replay: replay})
 }
 
-// Signatures of the deviations already described in spec/Query.tla ("mode").
 const (
-	SigK1 = "bool-should-min-ignored-when-should-is-unadorned-disjunction(scorch,score:none)"
-	SigK2 = "fuzzy-transposition-counts-as-one-edit(scorch)"
-	SigK3 = "regexp-leftmost-first-match-must-span-term(upsidedown)"
+	SigK1 = qs.SigK1
+	SigK2 = qs.SigK2
+	SigK3 = qs.SigK3
 )
 
 type variant struct {
@@ -127,109 +124,10 @@ func doSearch(idx bleve.Index, q query.Query, v variant, size int) ([]int, int, 
 	return ids, int(res.Total), nil
 }
 
-// which deviations of spec/Query.tla "mode" a run is prone to, given the
-// query's features
-type features struct {
-	fuzzy     bool // fuzzy matching with fuzziness >= 1 somewhere
-	k1        bool // a boolean node whose should searcher lost its Min() (annotated)
-	k1Filter  bool // ... below a filter clause
-	regexpAlt bool // a regexp with alternation
-}
-
-func featuresOf(n *qs.Node) features {
-	var f features
-	var walk func(x *qs.Node, underFilter bool)
-	walk = func(x *qs.Node, underFilter bool) {
-		switch x.Type {
-		case "fuzzy", "match":
-			if x.Fuzz >= 1 {
-				f.fuzzy = true
-			}
-		case "regexp":
-			if len(x.Alts) > 1 {
-				f.regexpAlt = true
-			}
-		case "boolean":
-			if x.K1 == 1 {
-				f.k1 = true
-				if underFilter {
-					f.k1Filter = true
-				}
-			}
-			for _, k := range x.Must {
-				walk(k, underFilter)
-			}
-			for _, k := range x.Should {
-				walk(k, underFilter)
-			}
-			for _, k := range x.MustNot {
-				walk(k, underFilter)
-			}
-			for _, k := range x.Filter {
-				walk(k, true)
-			}
-			return
-		}
-		for _, k := range x.Kids() {
-			walk(k, underFilter)
-		}
-	}
-	walk(n, false)
-	return f
-}
-
-// proneTo returns the known-deviation classes the run may exhibit ("" none).
-func proneTo(f features, v variant) []string {
-	var out []string
-	if v.Eng == qs.EngScorch {
-		if f.fuzzy {
-			out = append(out, SigK2)
-		}
-		if (f.k1 && v.Score == "none") || f.k1Filter {
-			out = append(out, SigK1)
-		}
-	} else if f.regexpAlt {
-		out = append(out, SigK3)
-	}
-	return out
-}
-
-// annotateK1 marks the boolean nodes whose should clause, built as scorch
-// builds it under score:none, reports a Min() below the requested minimum
-// (the unadorned disjunction optimisation returns a term searcher).
-func annotateK1(n *qs.Node, sc bleve.Index) error {
-	adv, err := sc.Advanced()
-	if err != nil {
-		return err
-	}
-	rd, err := adv.Reader()
-	if err != nil {
-		return err
-	}
-	defer rd.Close()
-	var ferr error
-	n.Walk(func(x *qs.Node) {
-		x.K1 = 0
-		if x.Type != "boolean" || len(x.Must) == 0 || len(x.Should) < 2 || x.MinN < 1 {
-			return
-		}
-		var ds []query.Query
-		for _, k := range x.Should {
-			ds = append(ds, k.Bleve(nil))
-		}
-		dq := query.NewDisjunctionQuery(ds)
-		dq.SetMin(float64(x.MinN))
-		s, err := dq.Searcher(context.Background(), rd, sc.Mapping(), search.SearcherOptions{Score: "none"})
-		if err != nil {
-			ferr = err
-			return
-		}
-		if s.Min() < x.MinN {
-			x.K1 = 1
-		}
-		s.Close()
-	})
-	return ferr
+func proneTo(f qs.Features, v variant) []string {
+	// the optimisation needs Score "none" and no term vectors (IncludeLocations
+	// asks for them)
+	return qs.ProneTo(f, v.Eng, v.Score == "none" && !v.Loc)
 }
 
 type corpusT struct {
@@ -284,7 +182,7 @@ func buildCorpus(seed int64, hist qs.History, live map[int]*qs.Doc, nids int) (*
 }
 
 func (ct *corpusT) runCase(q *qs.Node) (*caseT, error) {
-	if err := annotateK1(q, ct.idx[qs.EngScorch]); err != nil {
+	if err := qs.AnnotateK1(q, ct.idx[qs.EngScorch]); err != nil {
 		return nil, err
 	}
 	cs := &caseT{Seed: ct.seed, Hist: ct.hist, Corpus: ct.corpus, Q: q, NLive: len(ct.live)}
@@ -323,16 +221,17 @@ func run(c *core.Ctx) error {
 	c.Assume("scorch is exercised in memory (every batch one segment, deletions as bitmaps), upsidedown over gtreap; disk persistence and merging are property C05's subject")
 
 	// 1. the model decides (runs concurrently with the engines)
-	models := []modelCfg{
-		{"MCSearchers_c02_q_flat.cfg", 4, 8 * time.Minute},
-		{"MCSearchers_c02_q_flat_bm.cfg", 2, 8 * time.Minute},
-		{"MCSearchers_c02_q_deep.cfg", 2, 8 * time.Minute},
-		{"MCSearchers_c02_q_heap.cfg", 2, 8 * time.Minute},
-	}
+	// (quick: the two configurations dumped for engine A below ARE the model
+	// check - TLC verifies EnumIsHits / NoneEqualsScored while enumerating)
+	var models []modelCfg
 	if c.Thorough() {
-		models = append(models,
-			modelCfg{"MCSearchers_c02_t_deep.cfg", 6, 25 * time.Minute},
-			modelCfg{"MCSearchers_c02_t_flat5.cfg", 4, 25 * time.Minute})
+		models = []modelCfg{
+			{"MCSearchers_c02_t_flat.cfg", 4, 28 * time.Minute},
+			{"MCSearchers_c02_t_flat_bm.cfg", 2, 28 * time.Minute},
+			{"MCSearchers_c02_t_heap.cfg", 2, 28 * time.Minute},
+			{"MCSearchers_c02_t_deep.cfg", 4, 28 * time.Minute},
+			{"MCSearchers_c02_t_flat5.cfg", 2, 28 * time.Minute},
+		}
 	}
 	var wg sync.WaitGroup
 	for _, m := range models {
@@ -474,7 +373,7 @@ func judgeCases(c *core.Ctx, cases []*caseT, account bool) error {
 	var clean []recRef
 	prone := map[string][]recRef{}
 	for _, cs := range cases {
-		f := featuresOf(cs.Q)
+		f := qs.FeaturesOf(cs.Q)
 		var cleanRuns []runRec
 		byClass := map[string][]runRec{}
 		for _, r := range cs.Runs {
@@ -870,7 +769,10 @@ func withKid(q *qs.Node, i int, k *qs.Node) *qs.Node {
 
 // ---- engine A: TLC-enumerated (postings, tree) cases on controlled indexes
 
-var layoutA = qs.Layout{Segs: []int{2, 2}, Deleted: []int{1}} // = Segs22 / Deleted {1} of the cfg
+type caseSrc struct {
+	cfg    string
+	layout qs.Layout // must equal SegSizes / Deleted of the cfg
+}
 
 type caseA struct {
 	q    any
@@ -879,8 +781,32 @@ type caseA struct {
 }
 
 func engineA(c *core.Ctx) error {
+	l22 := qs.Layout{Segs: []int{2, 2}, Deleted: []int{1}}
+	l21 := qs.Layout{Segs: []int{2, 1}}
+	srcs := []caseSrc{{"MCSearchers_c02_cases_q.cfg", l22}, {"MCSearchers_c02_cases_deep_q.cfg", l21}}
+	if c.Thorough() {
+		srcs = []caseSrc{{"MCSearchers_c02_cases_t.cfg", l22}, {"MCSearchers_c02_cases_deep_q.cfg", l21}}
+	}
+	var wg sync.WaitGroup
+	errs := make([]error, len(srcs))
+	for i, s := range srcs {
+		wg.Add(1)
+		go func(i int, s caseSrc) {
+			defer wg.Done()
+			errs[i] = engineAOne(c, s.cfg, s.layout)
+		}(i, s)
+	}
+	wg.Wait()
+	for _, e := range errs {
+		if e != nil {
+			return e
+		}
+	}
+	return nil
+}
+
+func engineAOne(c *core.Ctx, cfg string, layoutA qs.Layout) error {
 	var cases []caseA
-	cfg := "MCSearchers_c02_cases_q.cfg"
 	_, err := qs.DumpVars(c, "MCSearchers", cfg, []string{"q", "post", "hits", "calls"}, func(st map[string]any) error {
 		if tlaval.Int(st["calls"]) != 0 {
 			return nil
@@ -895,12 +821,6 @@ func engineA(c *core.Ctx) error {
 	}, core.Workers(4), core.Timeout(10*time.Minute))
 	if err != nil {
 		return err
-	}
-	// thorough: every case; quick: a seeded half
-	r := rand.New(rand.NewSource(c.Seed))
-	if c.Quick() && len(cases) > 12000 {
-		r.Shuffle(len(cases), func(i, j int) { cases[i], cases[j] = cases[j], cases[i] })
-		cases = cases[:12000]
 	}
 	for _, eng := range qs.Engines {
 		a, err := qs.BuildIndexA(eng, layoutA)
@@ -935,7 +855,7 @@ func engineA(c *core.Ctx) error {
 						sort.Ints(ids)
 						c.Eval(1)
 						if fmt.Sprint(ids) != fmt.Sprint(cs.hits) || total != len(cs.hits) {
-							reportA(c, eng, sc, cs, ids, total)
+							reportA(c, eng, sc, cs, ids, total, layoutA)
 						}
 					}
 				}
@@ -950,14 +870,14 @@ func engineA(c *core.Ctx) error {
 	for _, cs := range cases {
 		c.Distinct("A|" + mustJSON(tlaval.ToJSON(cs.q)) + mustJSON(cs.post))
 	}
-	c.Extra("engineA_cases", len(cases))
+	c.AddExtra("engineA_cases", int64(len(cases)))
 	if len(cases) > 0 {
 		c.Sample(map[string]any{"engineA_case": tlaval.ToJSON(cases[len(cases)/3].q), "postings": cases[len(cases)/3].post, "spec_hits": cases[len(cases)/3].hits})
 	}
 	return nil
 }
 
-func reportA(c *core.Ctx, eng, score string, cs caseA, ids []int, total int) {
+func reportA(c *core.Ctx, eng, score string, cs caseA, ids []int, total int, layoutA qs.Layout) {
 	qj := tlaval.ToJSON(cs.q)
 	sig := fmt.Sprintf("engineA:%s/%s:%s", eng, scoreName(score), shapeA(cs.q))
 	what := fmt.Sprintf("engine %s score=%q: query %s over postings %v (layout %v) returned %v total %d, Searchers/Query specification says %v",
@@ -1009,10 +929,10 @@ func modelFindingK1(c *core.Ctx) error {
 		}
 		return fmt.Errorf("K1 configuration failed: %s", res.ErrorText)
 	}
-	if len(res.CounterEx) == 0 {
+	st, ok := qs.FirstBadState(res)
+	if !ok {
 		return fmt.Errorf("K1 counterexample not parsed")
 	}
-	st := res.CounterEx[0].State
 	post := qs.PostOf(st["post"])
 	var hits []int
 	for _, h := range tlaval.List(st["hits"]) {
